@@ -1,5 +1,5 @@
 import Fundraising.Generated.Code.Getters
-import Fundraising.Proofs.Tie.Export
+import Fundraising.Tables.GoStore
 /-
   Tie of the keeper's keyed getters (keeper/bid.go, match.go, vesting.go, allowed_bidder.go),
   translated store-threaded: on the store of a model state, each returns exactly the value of the
